@@ -378,8 +378,14 @@ def regenerate():
 # ====================================================================== object graphs of containers
 # Conventions shared with lean/PybropsModel/Drv/C20.lean: a dict is a cell with data [-9] whose references
 # are its values in insertion order (the list under "h" first); a list of ints is a cell holding them; a
-# list of objects is a cell [-8]; a numpy integer array is a cell [-7, values...].
+# list of objects is a cell [-8]; a numpy integer array is a cell [-7, values...]; a tuple of objects is a cell
+# [-6] (immutable); an instance of a plain class (`Box`) is a cell [-5] whose references are its attribute
+# values in insertion order (attribute "h" first).  A dict / Box without references is EMPTY (`{}`).
 DEPTH = 5
+
+
+class Box:
+    """a plain Python object with attributes (copied by copy.deepcopy through its __dict__)"""
 
 
 def graph_of(case):
@@ -401,16 +407,29 @@ def build_objects(nodes):
         d = n["d"]
         if d == [-9]:
             objs.append({})
+        elif d == [-5]:
+            objs.append(Box())
         elif d[:1] == [-8]:
             objs.append([])
+        elif d[:1] == [-6]:
+            objs.append(None)                 # tuples are immutable: built below, children first
         elif d[:1] == [-7]:
             objs.append(numpy.array(d[1:], dtype=numpy.int64))
         else:
             objs.append(list(d))
+    # the generator gives the elements of a tuple higher indices than the tuple (or they are not tuples)
+    for i in range(len(nodes) - 1, -1, -1):
+        if nodes[i]["d"][:1] == [-6]:
+            elems = [objs[r] for r in nodes[i]["r"]]
+            assert all(e is not None for e in elems), "tuple node refers to a tuple that is not built yet"
+            objs[i] = tuple(elems)
     for n, o in zip(nodes, objs):
         if isinstance(o, dict):
             for j, r in enumerate(n["r"]):
                 o["h" if j == 0 else f"k{j}"] = objs[r]
+        elif isinstance(o, Box):
+            for j, r in enumerate(n["r"]):
+                setattr(o, "h" if j == 0 else f"k{j}", objs[r])
         elif n["d"][:1] == [-8]:
             for r in n["r"]:
                 o.append(objs[r])
@@ -424,14 +443,32 @@ def _is_int(x):
 
 def data_children(o):
     """(data, children) of one object, see the conventions above"""
+    t = type(o)
+    if t is list:
+        for x in o:                          # fast path: a list of Python ints
+            if type(x) is not int:
+                break
+        else:
+            return list(o), []
+        if all(_is_int(x) for x in o):
+            return [int(x) for x in o], []
+        return [-8], list(o)
+    if t is dict:
+        return [-9], list(o.values())
     import numpy
     if isinstance(o, dict):
         return [-9], list(o.values())
+    if isinstance(o, Box):
+        return [-5], list(vars(o).values())
     if isinstance(o, numpy.ndarray):
         try:
+            if o.dtype.kind in "iu":
+                return [-7] + o.ravel().tolist(), []
             return [-7] + [int(x) for x in o.ravel()], []
         except Exception:
             return [-7, -999], []
+    if isinstance(o, tuple) and o and not all(_is_int(x) for x in o):
+        return [-6], list(o)
     if isinstance(o, (list, tuple)):
         if all(_is_int(x) for x in o):
             return [int(x) for x in o], []
@@ -467,6 +504,10 @@ def mut_obj(o, tok):
         h = o.setdefault("h", [])
         if isinstance(h, list):
             h.append(tok)
+    elif isinstance(o, Box):
+        h = vars(o).setdefault("h", [])
+        if isinstance(h, list):
+            h.append(tok)
     elif isinstance(o, numpy.ndarray):
         if o.size >= 1:
             o.ravel()[-1] = tok
@@ -487,6 +528,8 @@ class Recorder:
         self.script = []
         self.used = set()
         self.seen = []          # every object the operators / logbook were handed or returned, in order
+        self.auto = None        # [next token]: unscripted calls mutate every handed container (second programme)
+        self.depth = DEPTH      # how deep the observations unfold the object graphs
 
     def oid(self, o):
         k = id(o)
@@ -495,11 +538,10 @@ class Recorder:
             self.ids[k] = len(self.objs)
         return self.ids[k]
 
-    @staticmethod
-    def val(o):
+    def val(self, o):
         if o is None:
             return None
-        return view(o)
+        return view(o, self.depth)
 
     def attr(self, name):
         """a container of the programme, through its public property (private attribute as fallback)"""
@@ -547,6 +589,8 @@ class Recorder:
         for tag, x in rets:
             if tag == "arg":
                 out.append(objs[x] if x < len(objs) else objs[0])
+            elif tag == "empty":
+                out.append({})                      # a legitimately EMPTY container (falsy)
             else:
                 out.append({"h": list(x)})
         return out
@@ -564,6 +608,15 @@ def _nat(x):
 
 class StubAbort(Exception):
     """raised by a scripted operator to interrupt an evolve/advance call on purpose"""
+
+
+class RetiredOperatorApplied(Exception):
+    """an operator / logbook the user has replaced by another one was applied"""
+
+
+def _alive(stub, what):
+    if getattr(stub, "retired", False):
+        raise RetiredOperatorApplied(f"the {what} that the user replaced by another one was applied")
 
 
 DEFAULT_RETS = {
@@ -589,8 +642,15 @@ def _stub_classes():
               "startVals": rec.start_vals()}
         a = rec.next_action("op:" + kind)
         if a is not None and a.get("raise"):
+            # the operator fails — possibly after it has already changed what it was handed (`muts`)
+            rec.mutate(objs, a.get("muts", []))
             raise StubAbort("scripted operator failure in " + kind)
         if a is None:
+            if rec.auto is not None:
+                for o in objs:
+                    if o is not None:
+                        rec.auto[0] += 1
+                        mut_obj(o, rec.auto[0])
             rets = rec.select(objs, DEFAULT_RETS[kind])
         else:
             rec.deep(rec.seen, a.get("late", []))      # objects kept from EARLIER calls, mutated now
@@ -608,6 +668,7 @@ def _stub_classes():
             self.rec = rec
 
         def initialize(self, **kwargs):
+            _alive(self, "initialisation operator")
             rec = self.rec
             ev = {"kind": "init", "t": _nat(rec.prog.t_cur), "tmax": _nat(rec.prog.t_max), "rep": int(rec.lbook.rep),
                   "args": [], "argVals": [], "startVals": rec.start_vals()}
@@ -623,6 +684,7 @@ def _stub_classes():
             self.rec = rec
 
         def pselect(self, genome, geno, pheno, bval, gmod, t_cur, t_max, miscout=None, **kwargs):
+            _alive(self, "parent selection operator")
             return op_call(self.rec, "pselect", [genome, geno, pheno, bval, gmod, miscout], t_cur, t_max)
 
     class Mate(MatingOperator):
@@ -630,6 +692,7 @@ def _stub_classes():
             self.rec = rec
 
         def mate(self, mcfg, genome, geno, pheno, bval, gmod, t_cur, t_max, miscout=None, **kwargs):
+            _alive(self, "mating operator")
             return op_call(self.rec, "mate", [mcfg, genome, geno, pheno, bval, gmod, miscout], t_cur, t_max)
 
     class Eval(EvaluationOperator):
@@ -637,6 +700,7 @@ def _stub_classes():
             self.rec = rec
 
         def evaluate(self, genome, geno, pheno, bval, gmod, t_cur, t_max, miscout=None, **kwargs):
+            _alive(self, "evaluation operator")
             return op_call(self.rec, "evaluate", [genome, geno, pheno, bval, gmod, miscout], t_cur, t_max)
 
     class SSel(SurvivorSelectionOperator):
@@ -644,6 +708,7 @@ def _stub_classes():
             self.rec = rec
 
         def sselect(self, genome, geno, pheno, bval, gmod, t_cur, t_max, miscout=None, **kwargs):
+            _alive(self, "survivor selection operator")
             return op_call(self.rec, "sselect", [genome, geno, pheno, bval, gmod, miscout], t_cur, t_max)
 
     class Book(Logbook):
@@ -669,6 +734,7 @@ def _stub_classes():
             self._rep = value
 
         def _log(self, kind, objs, t_cur, t_max, misc):
+            _alive(self, "logbook")
             rec = self.rec
             ev = {"kind": "log:" + kind, "t": _nat(t_cur), "tmax": _nat(t_max), "rep": int(self._rep),
                   "args": [rec.oid(o) for o in objs] + [0],
@@ -708,6 +774,7 @@ def _stub_classes():
 
 
 _STUBS = None
+_FALSY = {}
 
 
 def stubs():
@@ -715,6 +782,25 @@ def stubs():
     if _STUBS is None:
         _STUBS = _stub_classes()
     return _STUBS
+
+
+STUB_NAMES = ["initop", "pselop", "mateop", "evalop", "sselop", "lbook"]
+
+
+def stub_class(name, how=None):
+    """the stub class for `name`; `how` = "len" / "bool": a subclass whose instances are FALSY
+    (`__len__` returning 0 — e.g. a logbook without records, an operator with an empty queue — or
+    `__bool__` returning False).  Being falsy is a legitimate trait of an implementation."""
+    base = stubs()[STUB_NAMES.index(name)]
+    if not how:
+        return base
+    key = (name, how)
+    if key not in _FALSY:
+        if how == "len":
+            _FALSY[key] = type("Empty" + base.__name__, (base,), {"__len__": lambda self: 0})
+        else:
+            _FALSY[key] = type("Falsy" + base.__name__, (base,), {"__bool__": lambda self: False})
+    return _FALSY[key]
 
 
 def _prog_module():
@@ -792,6 +878,41 @@ def _unpack(trace):
     return out
 
 
+def _unify_copies(trace, known=()):
+    """Identity canonicalisation for the Spec oracle (never fires on the unchanged tree, where the logbook is
+    handed the very objects the operator returned).  The Spec accepts a handover when the received object is
+    the returned one OR has equal contents.  A programme that stores a COPY of what an operator returned hands
+    the logbook an object never seen before whose contents equal those of a returned container; when the
+    logbook then changes that copy in place, the next operator receives it with contents that no longer equal
+    the contents at return.  The copy IS the state the predecessor returned: from its first appearance (as an
+    argument of a logbook call, with contents equal to those of exactly the container the preceding operator
+    call returned) it is identified with that container."""
+    seen = set(known)
+    alias = {}
+    out = []
+    prev_op = None
+    for e in trace:
+        e = dict(e)
+        args = [alias.get(i, i) for i in e["args"]]
+        if e["kind"].startswith("log:") and prev_op is not None:
+            taken = set(args)
+            for j, (i, v) in enumerate(zip(args, e["argVals"])):
+                if i and i not in seen and i not in alias.values():
+                    cands = [r for r, rv in zip(prev_op["rets"], prev_op["retVals"]) if rv == v and r not in taken]
+                    if cands:
+                        alias[i] = cands[0]
+                        taken.add(cands[0])
+                        args[j] = cands[0]
+        e["args"] = args
+        e["rets"] = [alias.get(i, i) for i in e["rets"]]
+        seen.update(e["args"])
+        seen.update(e["rets"])
+        if e["kind"].startswith("op:"):
+            prev_op = e
+        out.append(e)
+    return out
+
+
 def _calls(case):
     """the API calls of a case (older replay files have `runs` = evolve calls only)"""
     if "calls" in case:
@@ -829,41 +950,57 @@ def _plain(case):
 class C20(Prop):
     PID = "C20"
     MODULE = "PybropsModel.Props.C20"
-    N_QUICK = 240
-    N_THOROUGH = 6000
+    N_QUICK = 110
+    N_THOROUGH = 2000
     RULE = ("RecurrentSelectionBreedingProgram (and a subclass inheriting its methods) driven through sequences of "
             "API calls — evolve(nrep 0-4, ngen 0-5 or None, loginit on/off; also 130 generations, 260 replicates), "
             "reset(), advance(ngen) incl. advance after an evolve and reset between advances; keyword, positional, "
-            "defaulted, extra-keyword and numpy-integer argument forms — with scripted operator / logbook / "
-            "initialisation stubs: start containers given (flat, nested up to 4 levels of dict / list / numpy array "
-            "with sharing between containers and cycles, or the same dict for two slots), partly missing or produced "
-            "by the initialisation operator; every operator call mutates handed containers in place with a unique "
-            "token (at the top and at every level below), may mutate objects it kept from EARLIER calls, and returns "
-            "per slot either the handed object, another handed object (alias) or a fresh container with unique "
-            "content; logbook calls may mutate too.  Non-trivial = first call is evolve with nrep >= 2, ngen >= 1 "
-            "(or the case has a direct reset/advance call), at least one in-place mutation and at least one fresh "
-            "return")
+            "defaulted, extra-keyword and numpy-integer argument forms; between calls the user may re-assign start_* "
+            "(a new container, an EMPTY one, None), t_max, t_cur (also back to 0), replace an operator by another "
+            "instance, hand over another logbook, run a SECOND programme object, or meet an operator that fails "
+            "(possibly after mutating what it was handed, possibly in the very first evaluation) — with scripted "
+            "operator / logbook / initialisation stubs: start containers given (flat; nested up to 4 levels of dict / "
+            "list / tuple / class instance / numpy array with sharing between containers and cycles; a chain 12 levels "
+            "deep; a 1030-element list, a 1100-element array, a dict with 131 values; EMPTY dicts `{}`, empty lists, "
+            "zero-length arrays; the same dict for two slots), partly missing or produced by the initialisation "
+            "operator; every operator call mutates handed containers in place with a unique token (at the top and at "
+            "every level below), may mutate objects it kept from EARLIER calls, and returns per slot either the handed "
+            "object, another handed object (alias), a fresh container with unique content or a fresh EMPTY container "
+            "(also for the mating configuration); logbook calls may mutate too; logbook and operators may be FALSY "
+            "objects (`__len__` = 0 or `__bool__` = False).  Non-trivial = first call is evolve with nrep >= 2, "
+            "ngen >= 1 (or the case has a direct reset/advance call or a between-calls event), at least one in-place "
+            "mutation and at least one fresh return")
     TRUSTED = ["copy.deepcopy is modelled on an object-graph heap (cells holding references, any nesting depth, "
                "sharing and cycles): every cell that existed at initialisation is copied and its internal references "
                "redirected, so the copy of a start container is an isomorphic disjoint graph at every level "
                "(theorems view_copy / Good.extend; copies that stop k levels down are modelled too (levelCopy) and "
                "refuted by shallow_level_counterexample); that Python's memoised traversal computes the same graph "
-               "up to unreachable garbage is trusted",
+               "up to unreachable garbage — for dicts, lists, tuples, numpy arrays and instances of plain classes — "
+               "is trusted",
                "the ast -> Lean translator of harness/props/c20.py (one Lean statement per Python statement, "
-               "nothing normalised); checked on every run by comparing the trace of the regenerated schedule "
-               "with the real class",
+               "nothing normalised; initialize() / is_initialized() must be textually the five-container assignment / "
+               "the conjunction of five `is not None` tests); checked on every run by comparing the trace of the "
+               "regenerated schedule with the real class",
                "Python attribute/property mechanics of the class (setters check_is_dict / check_is_int) and "
-               "keyword-argument binding; attribute re-assignment by the user between calls (start_*, t_max, t_cur), "
-               "a second logbook and a call interrupted by a failing operator are covered by the correspondence "
-               "check and the Spec oracle only (the theorem about histories speaks of evolve/reset/advance calls)"]
+               "keyword-argument binding.  Re-assignment of t_cur / t_max and a different logbook per call are covered "
+               "by theorem history_with_reassignment_meets_spec; re-assignment of start_*, replacement of an operator "
+               "instance, a second programme object, falsy logbook / operator objects and a call interrupted by a "
+               "failing operator are covered by the correspondence check and the Spec oracle only (in the model the "
+               "first is a caller-side allocation, the next three are no-ops, the last is not run)",
+               "identity canonicalisation before the Spec oracle (harness, _unify_copies): an object first seen as an "
+               "argument of a logbook call whose contents equal those of a container the preceding operator call "
+               "returned is identified with that container (a programme that stores a copy of what an operator "
+               "returned); it never fires on the unchanged tree"]
     ASSUMPTIONS = ["operators and logbook may keep every reference they are ever handed or return and mutate it in "
                    "any later call (theorem evolve_meets_spec_of_footprint); at the time of a call they hold no "
                    "reference into the object graphs of the stored start containers, and the initialisation "
                    "operator does not keep what it returns",
-                   "operators return dicts and tuples of the documented arity; nrep, ngen are non-negative integers "
-                   "(Python or numpy; ngen may be None for evolve, documented as 'use t_max')",
+                   "operators return dicts (possibly empty) and tuples of the documented arity; nrep, ngen are "
+                   "non-negative integers (Python or numpy; ngen may be None for evolve, documented as 'use t_max')",
                    "reset()/advance() are called directly only on an initialised programme, advance() only when "
-                   "working containers exist"]
+                   "working containers exist",
+                   "a start container that is an EMPTY dict is a given container (is_initialized tests `is not None`): "
+                   "the initialisation operator is applied only when a start container is None"]
 
     # ------------------------------------------------------------------ obligations
     def pre_build(self):
@@ -887,22 +1024,34 @@ class C20(Prop):
             return cnt[0]
 
         def leaf():
-            return add([num() for _ in range(rng.randint(1, 2))])
+            # now and then an EMPTY list
+            return add([num() for _ in range(rng.randint(1, 2) if rng.random() < 0.9 else 0)])
 
         def arr():
-            return add([-7] + [num() for _ in range(rng.randint(1, 3))])
+            # now and then a zero-length array
+            return add([-7] + [num() for _ in range(rng.randint(1, 3) if rng.random() < 0.93 else 0)])
 
         def sub(depth):
             r = rng.random()
             if depth <= 0:
                 return leaf() if r < 0.5 else arr()
-            if r < 0.15:
+            if r < 0.12:
                 return leaf()
-            if r < 0.35:
+            if r < 0.3:
                 return arr()
-            if r < 0.7:
+            if r < 0.35:
+                return add([-9])                       # an EMPTY dict
+            if r < 0.6:
                 i = add([-8])
                 nodes[i]["r"] = [sub(depth - 1) for _ in range(rng.randint(1, 2))]
+                return i
+            if r < 0.7:                                # a tuple of objects (elements get higher indices)
+                i = add([-6])
+                nodes[i]["r"] = [sub(depth - 1) for _ in range(rng.randint(1, 2))]
+                return i
+            if r < 0.8:                                # an instance of a plain class with attributes
+                i = add([-5])
+                nodes[i]["r"] = [leaf()] + [sub(depth - 1) for _ in range(rng.randint(0, 2))]
                 return i
             i = add([-9])
             nodes[i]["r"] = [leaf()] + [sub(depth - 1) for _ in range(rng.randint(0, 2))]
@@ -916,9 +1065,16 @@ class C20(Prop):
             roots.append((i, first, len(nodes)))
         # a chain that is certainly 4 levels deep below one container: dict -> list -> dict -> array
         i0 = roots[rng.randrange(5)][0]
-        a = arr()
+        a = add([-7, num(), num()])
         d = add([-9], [leaf(), a])
         nodes[i0]["r"].append(add([-8], [d]))
+        # ... and one through a tuple and a class instance below another: dict -> tuple -> Box -> list
+        i1 = roots[rng.randrange(5)][0]
+        tpl = add([-6])
+        bx = add([-5])
+        nodes[bx]["r"] = [add([num()]), add([-7, num()])]
+        nodes[tpl]["r"] = [bx]
+        nodes[i1]["r"].append(tpl)
         r = rng.random()
         if r < 0.35:          # one inner object shared by two start containers
             x, y = rng.sample(range(5), 2)
@@ -938,7 +1094,7 @@ class C20(Prop):
         stack = [(root, [])]
         while stack:
             n, pth = stack.pop()
-            if nodes[n]["d"][:1] != [-8]:
+            if nodes[n]["d"][:1] not in ([-8], [-6]):
                 out.append(pth)
             if len(pth) < maxlen:
                 for j, r in enumerate(nodes[n]["r"]):
@@ -946,9 +1102,10 @@ class C20(Prop):
         out.sort(key=lambda q: (len(q), q))
         return out
 
-    def _script(self, rng, calls, needs_init, tok, style, tmax, paths=None, p_late=0.0):
+    def _script(self, rng, calls, needs_init, tok, style, tmax, paths=None, p_late=0.0, p_empty=0.0, start=None):
         """actions in call order.  `paths`: per start slot the mutable paths of a nested start container;
-        `p_late`: probability that a call also mutates an object kept from an EARLIER call"""
+        `p_late`: probability that a call also mutates an object kept from an EARLIER call; `p_empty`:
+        probability that a returned container / mating configuration is a new EMPTY dict `{}`"""
         def fresh():
             tok[0] += 1
             return tok[0]
@@ -995,7 +1152,9 @@ class C20(Prop):
                 slot = i - (1 if kind == "pselect" else 0)     # container slot of this return value (-1 = mcfg)
                 r = rng.random()
                 pf = {"pure": 0.5, "inplace": 0.1, "fresh": 0.9, "mixed": 0.45, "sparse": 0.05}[style]
-                if slot < 0:
+                if p_empty and rng.random() < (3 * p_empty if slot < 0 else p_empty):
+                    rets.append(["empty", []])
+                elif slot < 0:
                     rets.append(["new", [fresh()]] if r < 0.8 else ["arg", rng.randrange(na)])
                 elif r < pf:
                     rets.append(["new", [fresh(), fresh()][:rng.randint(1, 2)]])
@@ -1037,16 +1196,21 @@ class C20(Prop):
             return out
 
         script = []
-        inited = not needs_init
+        missing = {i for i, x in enumerate(start or []) if x is None} if start is not None else \
+            ({0} if needs_init else set())
         for c in calls:
             seg = []
+            inited = not missing
             if c["m"] == "evolve":
                 if not inited:
                     rets = [["new", [fresh()]] for _ in range(5)]
                     if rng.random() < 0.3:        # equal contents in two slots
                         rets[rng.randrange(1, 5)] = ["new", list(rets[0][1])]
+                    if p_empty:                   # the initialisation operator returns empty containers
+                        for i in rng.sample(range(5), rng.randint(1, 3)):
+                            rets[i] = ["empty", []]
                     seg.append({"k": "init", "rets": rets})
-                    inited = True
+                    missing.clear()
                 ngen = c["ngen"] if c["ngen"] is not None else tmax
                 for _ in range(c["nrep"]):
                     seg.append(op_action("evaluate", first_eval=True))
@@ -1056,17 +1220,22 @@ class C20(Prop):
                 if c.get("abort"):
                     # an operator fails in the middle of this call: keep the actions up to a randomly chosen
                     # operator call, which raises instead of returning
-                    ops_at = [i for i, a in enumerate(seg) if a["k"].startswith("op:") and i >= 1]
-                    k = rng.choice(ops_at)
+                    # (also the very first evaluation of the call; the failing operator may already have
+                    # mutated what it was handed when it raises: the next call must not see that)
+                    ops_at = [i for i, a in enumerate(seg) if a["k"].startswith("op:")]
+                    k = ops_at[0] if c.get("abort_first") else rng.choice(ops_at)
                     seg = seg[:k + 1]
                     c["abort_rep"] = sum(1 for a in seg if a.get("first")) - 1     # replicate it happens in
-                    seg[k] = {"k": seg[k]["k"], "raise": True}
+                    seg[k] = {"k": seg[k]["k"], "raise": True,
+                              "muts": seg[k].get("muts", []) if rng.random() < 0.7 else []}
                     for a in seg:
                         a["ab"] = True
             elif c["m"] == "advance":
                 seg = gens(c["ngen"])
-            elif c["m"] == "set_start" and c.get("content") is None:
-                inited = False
+            elif c["m"] == "set_start" and c.get("content") is None and not c.get("empty"):
+                missing.add(c["slot"])
+            elif c["m"] == "set_start":
+                missing.discard(c["slot"])
             elif c["m"] == "set_tmax":
                 tmax = c["value"]
             script += seg
@@ -1075,7 +1244,7 @@ class C20(Prop):
         return script
 
     def _case(self, rng, calls, style="mixed", start_mode="given", tmax=None, tag="evolve", p_late=0.0,
-              subclass=False):
+              subclass=False, p_empty=0.0, falsy=None, _none_slot=None, _empties=None):
         tok = [100]
         share = []
         graph = None
@@ -1087,6 +1256,52 @@ class C20(Prop):
             cells = []
             graph, start = self._nested_graph(rng)
             paths = [self._paths(graph, r) for r in start]
+        elif start_mode == "empty":       # one to five of the given start containers are EMPTY dicts `{}`
+            cells = []
+            k = rng.choice([1, 1, 2, 3, 5]) if _empties is None else _empties
+            empties = set(rng.sample(range(5), k))
+            graph, start = [], []
+            for i in range(5):
+                start.append(len(graph))
+                if i in empties:
+                    graph.append({"d": [-9], "r": []})
+                else:
+                    graph.append({"d": [-9], "r": [len(graph) + 1]})
+                    graph.append({"d": [10 * (i + 1), i + 1][:rng.randint(0, 2)], "r": []})   # maybe an empty list
+        elif start_mode == "deep":        # one container nested a dozen levels deep: dict -> list -> dict -> ...
+            cells = []
+            graph, start = [], []
+            for i in range(5):
+                start.append(len(graph))
+                graph.append({"d": [-9], "r": [len(graph) + 1]})
+                graph.append({"d": [10 * (i + 1), i + 1], "r": []})
+            k = rng.randrange(5)
+            paths = [[[], [0]] for _ in range(5)]
+            parent, pth = start[k], []
+            for lvl in range(6):
+                lst, dct, hh = len(graph), len(graph) + 1, len(graph) + 2
+                graph.append({"d": [-8], "r": [dct]})
+                graph.append({"d": [-9], "r": [hh]})
+                graph.append({"d": [500 + lvl], "r": []})
+                graph[parent]["r"].append(lst)
+                pth = pth + [len(graph[parent]["r"]) - 1, 0]
+                paths[k] += [list(pth), pth + [0]]
+                parent = dct
+            paths = [sorted(p, key=lambda q: (len(q), q)) for p in paths]
+        elif start_mode == "big":         # sizes past 127 / 1024: a long list, a long array, a dict with many values
+            cells = []
+            graph, start = [], []
+            for i in range(5):
+                start.append(len(graph))
+                graph.append({"d": [-9], "r": [len(graph) + 1]})
+                graph.append({"d": [10 * (i + 1), i + 1], "r": []})
+            graph[start[0] + 1]["d"] = list(range(20000, 21030))                     # "h" of genome: 1030 integers
+            graph.append({"d": [-7] + list(range(30000, 31100)), "r": []})           # an array of 1100 integers
+            graph[start[1]]["r"].append(len(graph) - 1)
+            for j in range(130):                                                     # 131 values in one dict
+                graph.append({"d": [40000 + j], "r": []})
+                graph[start[2]]["r"].append(len(graph) - 1)
+            paths = [[[], [0]], [[], [0], [1]], [[], [0], [64], [130]], [[], [0]], [[], [0]]]
         elif start_mode == "shared":      # the same dict object stored in two start slots
             cells = [[i + 1, 7] for i in range(4)]
             start = [0, 1, 1, 2, 3]
@@ -1099,22 +1314,28 @@ class C20(Prop):
         elif start_mode == "partial":     # one container missing -> initialisation operator replaces all five
             cells = [[i + 1] for i in range(5)]
             start = [0, 1, 2, 3, 4]
-            start[rng.randrange(5)] = None
+            start[rng.randrange(5) if _none_slot is None else _none_slot] = None
         else:                              # "init": nothing given
             cells = []
             start = [None] * 5
         if tmax is None:
             tmax = rng.choice([0, 3, 7, 20])
         needs_init = any(x is None for x in start)
-        script = self._script(rng, calls, needs_init, tok, style, tmax, paths=paths, p_late=p_late)
-        case = {"kind": f"{tag}:{start_mode}:{style}" + (":late" if p_late else ""),
+        script = self._script(rng, calls, needs_init, tok, style, tmax, paths=paths, p_late=p_late, p_empty=p_empty,
+                              start=start)
+        case = {"kind": f"{tag}:{start_mode}:{style}" + (":late" if p_late else "") + (":empty-rets" if p_empty else "")
+                + (":falsy" if falsy else ""),
                 "tmax": tmax, "rep0": rng.choice([0, 0, 1, 5, -2]),
                 "cells": cells, "share": share, "start": start, "calls": calls, "script": script, "style": style,
                 "start_mode": start_mode}
         if graph is not None:
             case["graph"] = graph
+        if start_mode == "deep":
+            case["depth"] = 15
         if subclass:
             case["subclass"] = True
+        if falsy:
+            case["falsy"] = dict(falsy)
         return case
 
     @staticmethod
@@ -1166,8 +1387,9 @@ class C20(Prop):
             self._case(rng, [ev(2, 1), {"m": "reset"}, {"m": "advance", "ngen": 2}, ev(1, 1)], style="mixed",
                        p_late=0.5, tag="api"),
             # sizes past small-integer limits: more than 127 / 255 generations and replicates
-            self._case(rng, [ev(1, 130)], style="sparse", tmax=200, tag="long"),
-            self._case(rng, [ev(260, 0)], style="sparse", tag="long"),
+            self._case(rng, [ev(1, 130, loginit=False)], style="sparse", tmax=200, tag="long", start_mode="empty",
+                       _empties=5),
+            self._case(rng, [ev(260, 0, loginit=False)], style="sparse", tag="long", start_mode="empty", _empties=5),
             # rarely used call forms: positional arguments, defaults, extra keywords, numpy integers, a subclass
             self._case(rng, [ev(2, 1, form="positional"), {"m": "advance", "ngen": 1, "form": "positional"}],
                        tag="forms"),
@@ -1195,10 +1417,80 @@ class C20(Prop):
             self._case(rng, [dict(ev(2, 2), abort=True), ev(2, 1)], tag="abort", style="inplace"),
             self._case(rng, [dict(ev(1, 2), abort=True), {"m": "reset"}, {"m": "advance", "ngen": 1}], tag="abort"),
             self._case(rng, [ev(1, 1), dict(ev(3, 1), abort=True), ev(2, 1)], tag="abort"),
+            # ... in the very first evaluation, after the operator has already changed its working copies
+            self._case(rng, [dict(ev(2, 1), abort=True, abort_first=True), ev(2, 1)], tag="abort", style="inplace"),
+            self._case(rng, [dict(ev(1, 1), abort=True, abort_first=True), {"m": "reset"}, {"m": "advance", "ngen": 1}],
+                       tag="abort", style="inplace"),
+            # the clock set back to 0 by the user between calls
+            self._case(rng, [ev(1, 1), {"m": "set_t", "value": 0}, {"m": "reset"}, {"m": "advance", "ngen": 1}],
+                       tag="reassign", style="inplace"),
+            self._case(rng, [ev(1, 2), {"m": "set_t", "value": 0}, ev(2, 1)], tag="reassign", style="inplace"),
+            # ---- falsy but valid values: EMPTY start containers `{}` (a programme without genomic models ...)
+            self._case(rng, [ev(2, 1)], start_mode="empty", style="inplace", tag="falsy"),
+            self._case(rng, [ev(2, 2), {"m": "reset"}, {"m": "advance", "ngen": 1}], start_mode="empty", tag="falsy"),
+            self._case(rng, [ev(2, 1), ev(1, None)], start_mode="empty", style="pure", p_late=0.6, tmax=1, tag="falsy"),
+            # ... operators (and the initialisation operator) that return empty containers / an empty mating
+            # configuration
+            self._case(rng, [ev(2, 2)], p_empty=0.25, tag="falsy"),
+            self._case(rng, [ev(3, 2), {"m": "advance", "ngen": 1}], p_empty=0.25, style="inplace", tag="falsy"),
+            self._all_mcfg_empty(self._case(rng, [ev(2, 3)], style="inplace", tag="falsy")),
+            self._case(rng, [ev(2, 1)], start_mode="init", p_empty=0.2, tag="falsy"),
+            self._case(rng, [ev(2, 1), {"m": "set_start", "slot": 3, "empty": True}, ev(2, 1)], tag="falsy"),
+            # ... a logbook / operators whose truth value is False (`__len__` = 0 or `__bool__` = False)
+            self._case(rng, [ev(2, 2)], falsy={"lbook": "len"}, tag="falsy"),
+            self._case(rng, [ev(2, 1), {"m": "advance", "ngen": 1}], tag="falsy", style="inplace",
+                       falsy={"lbook": "bool", "pselop": "len", "mateop": "bool", "evalop": "len", "sselop": "bool",
+                              "initop": "len"}),
+            self._case(rng, [ev(2, 1)], start_mode="init", falsy={"initop": "bool", "evalop": "bool"}, tag="falsy"),
+            # ---- the user replaces an operator by another instance between calls (the old one must not be applied)
+            self._case(rng, [ev(1, 1), {"m": "set_op", "which": "pselop"}, ev(2, 1)], tag="swap-op"),
+            self._case(rng, [{"m": "reset"}, {"m": "set_op", "which": "evalop"}, {"m": "advance", "ngen": 2},
+                             {"m": "set_op", "which": "mateop"}, {"m": "set_op", "which": "sselop"}, ev(1, 1)],
+                       tag="swap-op", style="inplace"),
+            self._case(rng, [ev(1, 1), {"m": "set_op", "which": "initop"},
+                             {"m": "set_start", "slot": 0, "content": None}, ev(2, 1)], tag="swap-op"),
+            self._case(rng, [ev(1, 1), {"m": "set_op", "which": "initop"},
+                             {"m": "set_start", "slot": 3, "content": None}, ev(2, 1)], tag="swap-op",
+                       start_mode="init"),
+            self._case(rng, [{"m": "set_op", "which": "evalop"}, ev(2, 1)], tag="swap-op"),
+            self._case(rng, [ev(1, 1)] + [{"m": "set_op", "which": n} for n in STUB_NAMES[1:5]] + [ev(1, 1)] +
+                       [{"m": "set_op", "which": n} for n in STUB_NAMES[1:5]] + [{"m": "advance", "ngen": 1}],
+                       tag="swap-op"),
+            # ---- read-only queries before the start containers are completed by the user: evolve must then NOT
+            # initialise (and must, when a container is taken away again)
+            self._case(rng, [{"m": "query"}, {"m": "set_start", "slot": 2, "content": [81, 82]}, {"m": "query"},
+                             ev(2, 1), {"m": "query"}], start_mode="partial", tag="query", _none_slot=2),
+            self._case(rng, [{"m": "query"}, {"m": "set_start", "slot": 4, "empty": True}, ev(2, 1),
+                             {"m": "set_start", "slot": 0, "content": None}, {"m": "query"}, ev(1, 1), {"m": "query"}],
+                       start_mode="partial", tag="query", _none_slot=4, style="inplace"),
+            self._case(rng, [{"m": "query"}, ev(2, 1), {"m": "query"}, {"m": "reset"}, {"m": "query"},
+                             {"m": "advance", "ngen": 1}], start_mode="init", tag="query"),
+            # ---- two programme objects used in turn: one must not influence the other
+            self._case(rng, [ev(2, 1), {"m": "other", "nrep": 2, "ngen": 1, "loginit": True},
+                             {"m": "advance", "ngen": 1}, ev(1, 1)], tag="two-programs", style="inplace"),
+            self._case(rng, [{"m": "other", "nrep": 1, "ngen": 1, "loginit": True}, ev(2, 1),
+                             {"m": "other", "nrep": 1, "ngen": 2, "loginit": False}, {"m": "reset"},
+                             {"m": "advance", "ngen": 1}], tag="two-programs"),
+            # ---- nesting deeper than any fixed copy depth; sizes past 127 / 1024
+            self._case(rng, [ev(2, 1)], start_mode="deep", style="inplace", tag="sizes"),
+            self._case(rng, [ev(2, 1), {"m": "reset"}, {"m": "advance", "ngen": 1}], start_mode="deep", style="pure",
+                       p_late=0.7, tag="sizes"),
+            self._case(rng, [ev(2, 0)], start_mode="big", style="inplace", tag="sizes"),
+            # ---- containers holding tuples and class instances (copied by copy.deepcopy at every level)
+            self._case(rng, [ev(2, 2)], start_mode="nested", style="inplace", tag="kinds"),
         ]
         for c in out:
             c["_corpus"] = "builtin"
         return out
+
+    @staticmethod
+    def _all_mcfg_empty(case):
+        """every parent selection returns an EMPTY mating configuration `{}`"""
+        for a in case["script"]:
+            if a["k"] == "op:pselect" and a.get("rets"):
+                a["rets"][0] = ["empty", []]
+        case["kind"] += ":mcfg-empty"
+        return case
 
     def generate(self, rng, n, tier):
         out = []
@@ -1210,30 +1502,79 @@ class C20(Prop):
             if tier == "thorough" and rng.random() < 0.05:
                 nrep, ngen = rng.randint(4, 8), rng.randint(4, 9)
             style = rng.choice(["mixed", "mixed", "mixed", "inplace", "fresh", "pure"])
-            mode = rng.choice(["given"] * 5 + ["nested"] * 2 + ["shared", "shared-inner", "partial", "init", "init"])
+            mode = rng.choice(["given"] * 5 + ["nested"] * 2 + ["empty"] * 2 +
+                              ["shared", "shared-inner", "partial", "init", "init"])
+            if rng.random() < 0.03:
+                mode = "deep"
+            if tier == "thorough" and rng.random() < 0.004:
+                mode = "big"
             p_late = rng.choice([0.0, 0.0, 0.0, 0.3, 0.7])
+            p_empty = rng.choice([0.0, 0.0, 0.0, 0.0, 0.15, 0.3])
+            falsy = None
+            if rng.random() < 0.15:
+                falsy = {n: rng.choice(["len", "bool"]) for n in STUB_NAMES if rng.random() < 0.5} or {"lbook": "len"}
             sub = rng.random() < 0.1
-            if mode == "nested":
+            if mode in ("nested", "deep"):
                 nrep, ngen = min(nrep, 3), min(ngen, 3)
+            if mode == "big":
+                nrep, ngen = max(min(nrep, 2), 2), 0
             r = rng.random()
             first = ev(nrep, ngen, loginit=rng.random() < 0.8, verbose=rng.random() < 0.1, form=rng.choice(forms))
-            if r < 0.09:
-                # attribute re-assignment, a second logbook, an interrupted call (flat start containers, no
-                # objects kept by the operators)
+            if r < 0.14:
+                # attribute re-assignment, a second logbook, an interrupted call, a replaced operator, a second
+                # programme object (flat start containers, no objects kept by the operators)
                 small = lambda: ev(rng.randint(1, 2), rng.randint(0, 2), loginit=rng.random() < 0.8)
-                which = rng.choice(["start", "start-none", "tmax", "t", "books", "abort", "abort"])
-                mode2 = rng.choice(["given", "given", "shared", "init"])
+                which = rng.choice(["start", "start-none", "tmax", "t", "books", "abort", "abort", "swap-op", "swap-op",
+                                    "other", "other", "query", "query"])
+                mode2 = rng.choice(["given", "given", "shared", "init", "empty"])
                 if which == "start":
                     pre = [small()] if (rng.random() < 0.6 or mode2 == "init") else []
-                    calls = pre + [{"m": "set_start", "slot": rng.randrange(5), "content": [rng.randint(60, 99)]},
-                                   rng.choice([small(), {"m": "reset"}])]
+                    new = {"m": "set_start", "slot": rng.randrange(5), "content": [rng.randint(60, 99)]}
+                    if rng.random() < 0.3:
+                        new = {"m": "set_start", "slot": new["slot"], "empty": True}
+                    calls = pre + [new, rng.choice([small(), {"m": "reset"}])]
+                elif which == "swap-op":
+                    # operators replaced between (and before) calls; the initialisation operator matters only
+                    # when a start container is taken away afterwards
+                    calls = []
+                    have_work = False
+                    inited2 = mode2 != "init"
+                    for _ in range(rng.randint(2, 4)):
+                        if rng.random() < 0.5:
+                            calls.append({"m": "set_op", "which": rng.choice(STUB_NAMES[:5])})
+                        if not inited2 or not have_work or rng.random() < 0.6:
+                            calls.append(small())
+                            have_work = have_work or calls[-1]["nrep"] >= 1
+                            inited2 = True
+                        else:
+                            calls.append({"m": "advance", "ngen": rng.randint(1, 2)})
+                    if rng.random() < 0.3:
+                        calls += [{"m": "set_op", "which": "initop"},
+                                  {"m": "set_start", "slot": rng.randrange(5), "content": None}, small()]
+                elif which == "query":
+                    # the user completes a partly given programme himself (queries in between), or queries around calls
+                    if rng.random() < 0.6:
+                        mode2 = "partial"
+                        calls = [{"m": "query"}, "FILL", {"m": "query"}, small()]
+                        if rng.random() < 0.4:
+                            calls += [{"m": "set_start", "slot": rng.randrange(5), "content": None}, {"m": "query"}, small()]
+                    else:
+                        calls = [{"m": "query"}, small(), {"m": "query"}] + \
+                            rng.choice([[small()], [{"m": "reset"}, {"m": "query"}, {"m": "advance", "ngen": 1}]])
+                elif which == "other":
+                    oth = lambda: {"m": "other", "nrep": rng.randint(1, 2), "ngen": rng.randint(0, 2),
+                                   "loginit": rng.random() < 0.8}
+                    calls = ([oth()] if rng.random() < 0.5 else []) + [small(), oth()] + \
+                        rng.choice([[small()], [{"m": "reset"}, {"m": "advance", "ngen": rng.randint(1, 2)}],
+                                    [{"m": "advance", "ngen": rng.randint(1, 2)}],
+                                    [{"m": "advance", "ngen": 1}, oth(), {"m": "advance", "ngen": 1}]])
                 elif which == "start-none":
                     calls = [small(), {"m": "set_start", "slot": rng.randrange(5), "content": None}, small()]
                 elif which == "tmax":
                     calls = [ev(rng.randint(0, 2), None), {"m": "set_tmax", "value": rng.randint(0, 3)},
                              ev(rng.randint(1, 2), None)]
                 elif which == "t":
-                    calls = [small(), {"m": "set_t", "value": rng.randint(1, 9)},
+                    calls = [small(), {"m": "set_t", "value": rng.choice([0, 0, 1, 2, 3, 5, 9])},
                              rng.choice([small(), {"m": "advance", "ngen": rng.randint(1, 2)}])]
                     if calls[0]["nrep"] == 0:
                         calls[0]["nrep"] = 1
@@ -1243,30 +1584,47 @@ class C20(Prop):
                         calls.insert(1, {"m": "advance", "ngen": 1, "book": rng.randrange(2)})
                 else:
                     ab = dict(ev(rng.randint(1, 3), rng.randint(1, 2), loginit=rng.random() < 0.8), abort=True)
+                    if rng.random() < 0.25:
+                        ab["abort_first"] = True
                     nxt = rng.choice([[ev(rng.randint(1, 2), rng.randint(0, 2))],
                                       [{"m": "reset"}, {"m": "advance", "ngen": rng.randint(0, 2)}]])
                     calls = ([small()] if rng.random() < 0.3 or mode2 == "init" else []) + [ab] + nxt
                 tag2 = {"start": "reassign", "start-none": "reassign", "tmax": "reassign", "t": "reassign",
-                        "books": "books", "abort": "abort"}[which]
+                        "books": "books", "abort": "abort", "swap-op": "swap-op", "other": "two-programs",
+                        "query": "query"}[which]
+                none_slot = None
+                if "FILL" in calls:
+                    none_slot = rng.randrange(5)
+                    fill = {"m": "set_start", "slot": none_slot, "content": [rng.randint(60, 99)]}
+                    if rng.random() < 0.3:
+                        fill = {"m": "set_start", "slot": none_slot, "empty": True}
+                    calls[calls.index("FILL")] = fill
                 out.append(self._case(rng, calls, style=rng.choice(["mixed", "inplace"]), start_mode=mode2, tag=tag2,
-                                      tmax=rng.choice([0, 1, 2, 3]) if which == "tmax" else None))
+                                      tmax=rng.choice([0, 1, 2, 3]) if which == "tmax" else None,
+                                      p_empty=p_empty if which in ("swap-op", "other", "query") else 0.0, falsy=falsy,
+                                      _none_slot=none_slot))
             elif r < 0.62:
-                out.append(self._case(rng, [first], style=style, start_mode=mode, p_late=p_late, subclass=sub))
+                c1 = self._case(rng, [first], style=style, start_mode=mode, p_late=p_late, subclass=sub,
+                                p_empty=p_empty, falsy=falsy)
+                if rng.random() < 0.04:
+                    c1 = self._all_mcfg_empty(c1)
+                out.append(c1)
             elif r < 0.72:
                 second = ev(rng.randint(1, 2), rng.randint(0, 2), loginit=rng.random() < 0.8, form=rng.choice(forms))
                 out.append(self._case(rng, [first, second], style=style, start_mode=mode, tag="two-evolves",
-                                      p_late=p_late, subclass=sub))
+                                      p_late=p_late, subclass=sub, p_empty=p_empty, falsy=falsy))
             elif r < 0.76:
                 tmax = rng.choice([0, 1, 2, 3])
                 out.append(self._case(rng, [ev(rng.choice([0, 1, 2]), None, loginit=rng.random() < 0.8,
                                                form=rng.choice(forms))],
-                                      style=style, start_mode=mode, tmax=tmax, tag="ngen-none", p_late=p_late))
+                                      style=style, start_mode=mode, tmax=tmax, tag="ngen-none", p_late=p_late,
+                                      p_empty=p_empty, falsy=falsy))
             else:
                 # a history of direct API calls; reset/advance need an initialised programme, advance needs
                 # working containers
                 calls = []
                 have_work = False
-                inited = mode in ("given", "shared", "nested", "shared-inner")
+                inited = mode in ("given", "shared", "nested", "shared-inner", "empty", "deep", "big")
                 for _ in range(rng.randint(1, 5)):
                     choice = rng.random()
                     if not inited or choice < 0.3:
@@ -1283,32 +1641,37 @@ class C20(Prop):
                             c["form"] = f
                         calls.append(c)
                 out.append(self._case(rng, calls, style=style, start_mode=mode, tag="api", p_late=p_late,
-                                      subclass=sub))
+                                      subclass=sub, p_empty=p_empty, falsy=falsy))
         return out
 
     # ------------------------------------------------------------------ implementation
     def run_impl(self, case):
         import numpy
-        Init, PSel, Mate, Eval, SSel, Book = stubs()
         mod = _prog_module()
         rec = Recorder()
         rec.script = case["script"]
+        rec.depth = case.get("depth", DEPTH)
         nodes, start_ix = graph_of(case)
         objs = build_objects(nodes)
         start = [None if i is None else objs[i] for i in start_ix]
         # the initial state is what the caller hands to the constructor (not what the object says it stored)
         expected = [rec.val(o) for o in start]
+        falsy = case.get("falsy") or {}          # {"lbook": "len", "pselop": "bool", ...}: falsy stubs
+        Book = stub_class("lbook", falsy.get("lbook"))
         books = [Book(rec, case["rep0"]), Book(rec, case.get("rep1", REP1))]
         book = books[0]
         rec.lbook = book
-        cls = mod.RecurrentSelectionBreedingProgram
+        base = mod.RecurrentSelectionBreedingProgram
+        cls = base
         if case.get("subclass"):
             cls = type("DerivedProgram", (cls,), {"__doc__": "a subclass that inherits reset/advance/evolve"})
+        ops = {n: stub_class(n, falsy.get(n))(rec) for n in STUB_NAMES[:5]}
         prog = cls(
-            Init(rec), PSel(rec), Mate(rec), Eval(rec), SSel(rec), case["tmax"],
+            ops["initop"], ops["pselop"], ops["mateop"], ops["evalop"], ops["sselop"], case["tmax"],
             start_genome=start[0], start_geno=start[1], start_pheno=start[2], start_bval=start[3],
             start_gmod=start[4])
         rec.prog = prog
+        other = {}                               # the second programme object (built at its first use)
 
         def work():
             objs = [rec.attr(n) for n in FIVE]
@@ -1316,6 +1679,32 @@ class C20(Prop):
 
         def num(x, form):
             return numpy.int64(x) if (form == "npint" and x is not None) else x
+
+        def run_other(c):
+            """ANOTHER programme object (same class, its own operators, logbook and start containers) is
+            evolved; its operators mutate everything they are handed"""
+            if not other:
+                r2 = Recorder()
+                r2.auto = [5000]
+                st2 = [{"h": [900 + i]} for i in range(4)] + [{}]
+                bk2 = stub_class("lbook")(r2, 70)
+                r2.lbook = bk2
+                p2 = base(*[stub_class(n)(r2) for n in STUB_NAMES[:5]], case["tmax"],
+                          start_genome=st2[0], start_geno=st2[1], start_pheno=st2[2], start_bval=st2[3],
+                          start_gmod=st2[4])
+                r2.prog = p2
+                other.update(rec=r2, book=bk2, prog=p2, V0=[r2.val(o) for o in st2])
+            r2, bk2, p2 = other["rec"], other["book"], other["prog"]
+            r2.trace = []
+            o2 = {"V0given": other["V0"], "rep_before": int(bk2.rep), "t_before": _nat(p2.t_cur), "raised": None}
+            try:
+                with contextlib.redirect_stdout(io.StringIO()):
+                    p2.evolve(nrep=c["nrep"], ngen=c["ngen"], lbook=bk2, loginit=c["loginit"])
+            except Exception as e:
+                o2["raised"] = {"type": type(e).__name__, "text": f"{type(e).__name__}: {e}"[:200]}
+            o2.update({"trace": r2.trace, "startVals_after": r2.start_vals(), "rep": int(bk2.rep),
+                       "t": _nat(p2.t_cur)})
+            return o2
 
         out = []
         for c in _calls(case):
@@ -1348,7 +1737,10 @@ class C20(Prop):
                         else:
                             prog.reset()
                     elif c["m"] == "set_start":          # the user assigns a new start container (or None)
-                        obj = None if c.get("content") is None else {"h": list(c["content"])}
+                        if c.get("empty"):
+                            obj = {}
+                        else:
+                            obj = None if c.get("content") is None else {"h": list(c["content"])}
                         setattr(prog, "start_" + FIVE[c["slot"]], obj)
                         expected = list(expected)
                         expected[c["slot"]] = rec.val(obj)
@@ -1356,6 +1748,22 @@ class C20(Prop):
                         prog.t_max = c["value"]
                     elif c["m"] == "set_t":
                         prog.t_cur = c["value"]
+                    elif c["m"] == "set_op":
+                        # the user replaces an operator by another instance (same behaviour: it consumes the
+                        # same script); the replaced instance must never be applied again
+                        name = c["which"]
+                        ops[name].retired = True
+                        ops[name] = stub_class(name, falsy.get(name))(rec)
+                        setattr(prog, name, ops[name])
+                    elif c["m"] == "other":
+                        o["other"] = run_other(c)
+                    elif c["m"] == "query":
+                        # read-only use of the object: nothing may change (and nothing may be remembered wrongly)
+                        o["answer"] = bool(prog.is_initialized())
+                        for n in ["t_cur", "t_max"] + STUB_NAMES[:5] + ["start_" + x for x in FIVE]:
+                            getattr(prog, n)
+                        for n in FIVE:
+                            rec.attr(n)
                     else:
                         ngen = num(c["ngen"], form)
                         if form == "positional":
@@ -1378,11 +1786,19 @@ class C20(Prop):
             out.append(o)
             if o["raised"]:
                 break
-            if rec.trace and rec.trace[0]["kind"] == "init":
+            if rec.trace and rec.trace[0]["kind"] == "init" and not all(v is not None for v in expected):
                 expected = rec.trace[0]["retVals"]      # initialised by the operator: that is the initial state
         return {"calls": out, "script_left": len(case["script"]) - len(rec.used)}
 
     # ------------------------------------------------------------------ model requests
+    @staticmethod
+    def _evolve_spec_req(nrep, ngen, loginit, o):
+        return {"op": "c20.spec", "nrep": nrep, "ngen": ngen, "loginit": loginit,
+                "V0given": o["V0given"], "trace": _pack(_unify_copies(o["trace"]), o["V0given"]),
+                "startVals_after": o["startVals_after"],
+                "rep_before": o["rep_before"], "rep_after": o["rep"],
+                "t_before": o["t_before"], "t_after": o["t"]}
+
     def requests(self, case, obs):
         nodes, start_ix = graph_of(case)
         calls = _calls(case)
@@ -1391,31 +1807,48 @@ class C20(Prop):
         for c, (_, _, rep_in) in zip(calls, bk):
             if c.get("abort"):
                 continue                     # an interrupted call is not run by the model (see judge)
-            m = {k: v for k, v in c.items() if k in ("m", "nrep", "ngen", "loginit", "slot", "content", "value")}
+            if c["m"] in ("set_op", "other", "query"):
+                mcalls.append({"m": "noop"})         # must not affect this programme object
+                continue
+            m = {k: v for k, v in c.items() if k in ("m", "nrep", "ngen", "loginit", "slot", "content", "value",
+                                                      "empty")}
             if c["m"] in ("evolve", "advance", "reset"):
                 m["rep_in"] = rep_in
             mcalls.append(m)
-        reqs = [{"op": "c20.run", "graph": nodes, "start": start_ix,
+        reqs = [{"op": "c20.run", "graph": nodes, "start": start_ix, "depth": case.get("depth", DEPTH),
                  "tmax": case["tmax"],
                  "rep0": case["rep0"], "script": [a for a in case["script"] if not a.get("ab")],
                  "calls": mcalls}]
+        # what the programme holds between calls is what the LAST operator call on it returned (or what reset()
+        # produced): `advance` must be handed that — not whatever the attributes show when it is entered
+        held = None
         for c, o, (tmax, _, _) in zip(calls, obs["calls"], bk):
             if o["raised"] or o.get("aborted") or c.get("abort"):
+                held = None
                 continue
+            if c["m"] == "advance":
+                cur_ids, cur_vals = held if held is not None else (o["work_before"], o["workVals_before"])
+            last_op = next((e for e in reversed(o["trace"]) if e["kind"].startswith("op:")), None)
+            if c["m"] in ("evolve", "advance") and last_op is not None and len(last_op["rets"]) == 5:
+                held = (last_op["rets"], last_op["retVals"])
+            elif c["m"] in ("evolve", "advance") and last_op is not None:
+                held = None
+            elif c["m"] == "reset":
+                held = (o["work"], o["workVals"])
             if c["m"] == "evolve":
                 ngen = c["ngen"] if c["ngen"] is not None else tmax     # documented default
-                reqs.append({"op": "c20.spec", "nrep": c["nrep"], "ngen": ngen, "loginit": c["loginit"],
-                             "V0given": o["V0given"], "trace": _pack(o["trace"], o["V0given"]),
-                             "startVals_after": o["startVals_after"],
-                             "rep_before": o.get("rep_before"), "rep_after": o["rep"]})
+                reqs.append(self._evolve_spec_req(c["nrep"], ngen, c["loginit"], o))
+            elif c["m"] == "other":
+                if not o["other"]["raised"]:
+                    reqs.append(self._evolve_spec_req(c["nrep"], c["ngen"], c["loginit"], o["other"]))
             elif c["m"] == "reset":
                 reqs.append({"op": "c20.spec_reset", "V0": o["V0given"], "workVals": o["workVals"], "t": o["t"],
                              "startVals_after": o["startVals_after"]})
             elif c["m"] == "advance":
                 reqs.append({"op": "c20.spec_advance", "ngen": c["ngen"], "t0": o["t_before"], "V0": o["V0given"],
-                             "cur": o["work_before"], "curVals": o["workVals_before"],
-                             "trace": _pack(o["trace"], o["V0given"]),
-                             "startVals_after": o["startVals_after"]})
+                             "cur": cur_ids, "curVals": cur_vals,
+                             "trace": _pack(_unify_copies(o["trace"], cur_ids), o["V0given"]),
+                             "startVals_after": o["startVals_after"], "t_after": o["t"]})
         return reqs
 
     def judge(self, case, obs, answers):
@@ -1461,18 +1894,31 @@ class C20(Prop):
                     # the scripted failure was never reached: the call performed fewer operator calls than scripted
                     sdetail.append(f"call {i} ({c['m']}) was scripted to be interrupted but ran to its end")
                 continue
-            if c["m"] not in ("evolve", "reset", "advance"):
+            if c["m"] == "other" and o["other"]["raised"]:
+                spec = False
+                sdetail.append(f"call {i} (evolve of a second programme object) raised {o['other']['raised']['text']}")
+                continue
+            if c["m"] == "query" and o.get("answer") != all(v is not None for v in o["V0given"]):
+                spec = False
+                sdetail.append(f"call {i} (query): is_initialized() answered {o.get('answer')}")
+            if c["m"] in ("other", "set_op", "set_t", "set_tmax", "query"):
+                # none of these may touch the stored initial state of THIS programme object
+                if o["startVals_after"] != o["V0given"]:
+                    spec = False
+                    sdetail.append(f"call {i} ({c['m']}): the stored start containers no longer hold the initial state")
+            if c["m"] not in ("evolve", "reset", "advance", "other"):
                 continue
             a = next(it)
+            what = "evolve of a second programme object" if c["m"] == "other" else c["m"]
             if "err" in a:
                 # what was recorded from the real class is not a trace the protocol can carry: not a valid run
                 spec = False
-                sdetail.append(f"call {i} ({c['m']}) Spec: recorded trace rejected by the oracle's decoder ({a['err'][:120]})")
+                sdetail.append(f"call {i} ({what}) Spec: recorded trace rejected by the oracle's decoder ({a['err'][:120]})")
                 continue
             a = a["ok"]
             if not a["ok"]:
                 spec = False
-            sdetail.append(f"call {i} ({c['m']}) Spec: {a['detail']}")
+            sdetail.append(f"call {i} ({what}) Spec: {a['detail']}")
         detail = sdetail + ["correspondence: " + (d if (d := "; ".join(detail)) else "model trace = implementation trace")]
         sc = case["script"]
         c0 = calls[0]
@@ -1480,7 +1926,7 @@ class C20(Prop):
             any(c["m"] != "evolve" for c in calls)
         nontriv = (big and any(a.get("deep") or a.get("late") or any(m is not None for m in a.get("muts", []))
                                for a in sc)
-                   and any(r[0] == "new" for a in sc[1:] for r in a.get("rets", [])))
+                   and any(r[0] in ("new", "empty") for a in sc[1:] for r in a.get("rets", [])))
         return {"corr": corr, "spec": spec, "nontrivial": nontriv, "detail": "; ".join(detail)}
 
     def signature(self, case, obs, verdict):
@@ -1506,6 +1952,7 @@ class C20(Prop):
         if case.get("start_mode") != "given" and all(s is not None for s in case["start"]):
             c = copy.deepcopy(case)
             c.pop("graph", None)
+            c.pop("depth", None)
             c["share"] = []
             c["cells"] = [[i + 1] for i in range(5)]
             c["start"] = [0, 1, 2, 3, 4]
@@ -1521,6 +1968,21 @@ class C20(Prop):
             c = copy.deepcopy(case)
             c.pop("subclass")
             yield c
+        for name in list(case.get("falsy") or {}):
+            c = copy.deepcopy(case)
+            c["falsy"].pop(name)
+            yield c
+        if any(r[0] == "empty" for a in case["script"] for r in a.get("rets", [])):
+            c = copy.deepcopy(case)
+            for a in c["script"]:
+                a["rets"] = [["new", [7000 + i]] if r[0] == "empty" else r for i, r in enumerate(a.get("rets", []))]
+            yield c
+        for i, x in enumerate(calls):
+            if x["m"] in ("set_op", "other", "query"):
+                c = copy.deepcopy(case)
+                c.pop("runs", None)
+                c["calls"] = calls[:i] + calls[i + 1:]
+                yield c
         for key in ("late", "deep"):
             if any(a.get(key) for a in case["script"]):
                 c = copy.deepcopy(case)
@@ -1744,6 +2206,83 @@ class C20(Prop):
                 "            self.bval = self.start_bval; self.gmod = self.start_gmod; self.t_cur = 0\n"
                 "            return\n"
                 "        self.genome = copy.deepcopy(self.start_genome)"))),
+            # ---- falsy but valid values (empty containers, empty mating configuration, falsy logbook / operators)
+            ("is_initialized_tests_truth_value", mk(["is_initialized"], lambda s: s.replace(
+                "        return (\n            (self._start_genome is not None) and\n            (self._start_geno is not None) and\n"
+                "            (self._start_pheno is not None) and\n            (self._start_bval is not None) and\n"
+                "            (self._start_gmod is not None)\n        )",
+                "        return all((self._start_genome, self._start_geno, self._start_pheno, self._start_bval, self._start_gmod))"))),
+            ("evolve_always_initializes", mk(["evolve"], lambda s: s.replace(
+                "        if not self.is_initialized():\n            self.initialize()\n", "        self.initialize()\n"))),
+            ("advance_skips_mating_for_empty_mcfg", mk(["advance"], lambda s: s.replace(
+                "self.genome, self.geno, self.pheno, self.bval, self.gmod = self._mateop.mate(",
+                "self.genome, self.geno, self.pheno, self.bval, self.gmod = "
+                "(self._mateop.mate if mcfg else (lambda mcfg, genome, geno, pheno, bval, gmod, **k: (genome, geno, pheno, bval, gmod)))("))),
+            ("working_setter_ignores_empty_container", mk(["pheno"], lambda s: s.replace(
+                "        check_is_dict(value, \"pheno\")\n        self._pheno = value",
+                "        check_is_dict(value, \"pheno\")\n        if value:\n            self._pheno = value"))),
+            ("evolve_falsy_logbook_replaced_by_standin", mk(["evolve", "advance"], lambda s: s.replace(
+                "        # initialize if needed\n",
+                "        lbook = lbook or type('NoLog', (), {'rep': 0, '__getattr__': lambda self, n: (lambda *a, **k: None)})()\n"
+                "        # initialize if needed\n"))),
+            ("advance_skips_falsy_operator", mk(["advance"], lambda s: s.replace(
+                "self.genome, self.geno, self.pheno, self.bval, self.gmod = self._sselop.sselect(",
+                "self.genome, self.geno, self.pheno, self.bval, self.gmod = "
+                "(self._sselop.sselect if self._sselop else (lambda genome, geno, pheno, bval, gmod, **k: (genome, geno, pheno, bval, gmod)))("))),
+            ("is_initialized_answer_cached", mk(["is_initialized"], lambda s: s.replace(
+                "        return (\n            (self._start_genome is not None) and",
+                "        if '_isinit' in self.__dict__:\n            return self._isinit\n"
+                "        self._isinit = (\n            (self._start_genome is not None) and").replace(
+                "            (self._start_gmod is not None)\n        )",
+                "            (self._start_gmod is not None)\n        )\n        return self._isinit"))),
+            # ---- operators replaced by the user between calls
+            ("advance_caches_operator_at_first_use", mk(["advance"], lambda s: s.replace(
+                "= self._pselop.pselect(", "= self.__dict__.setdefault('_pselop_first', self._pselop).pselect("))),
+            ("evolve_caches_evaluation_method", mk(["evolve"], lambda s: s.replace(
+                "self.genome, self.geno, self.pheno, self.bval, self.gmod = self._evalop.evaluate(",
+                "self.genome, self.geno, self.pheno, self.bval, self.gmod = self.__dict__.setdefault('_eval0', self._evalop.evaluate)("))),
+            ("initialize_caches_initop", mk(["initialize"], lambda s: s.replace(
+                "= self._initop.initialize(**kwargs)", "= self.__dict__.setdefault('_init0', self._initop).initialize(**kwargs)"))),
+            # ---- two programme objects
+            ("advance_works_on_the_programme_reset_last", mk(["reset", "advance"], lambda s: s.replace(
+                "class RecurrentSelectionBreedingProgram(", "_LAST = {}\nclass RecurrentSelectionBreedingProgram(", 1).replace(
+                "        self.t_cur = 0                                  # reset time",
+                "        self.t_cur = 0\n        _LAST['prog'] = self").replace(
+                "= self._pselop.pselect(\n                genome = self._genome,",
+                "= self._pselop.pselect(\n                genome = _LAST.get('prog', self)._genome,"))),
+            # ---- hand-written copies that know dicts, lists and arrays only (tuples, class instances shared)
+            ("reset_recursive_copy_shares_objects_in_all_five", mk(["reset"], lambda s: (lambda cp: s.replace(
+                "copy.deepcopy(self.start_genome)", cp("self.start_genome")).replace(
+                "copy.deepcopy(self.start_geno)", cp("self.start_geno")).replace(
+                "copy.deepcopy(self.start_pheno)", cp("self.start_pheno")).replace(
+                "copy.deepcopy(self.start_bval)", cp("self.start_bval")).replace(
+                "copy.deepcopy(self.start_gmod)", cp("self.start_gmod")))(
+                lambda x: "(lambda f, x: f(f, x, 0))(lambda f, x, n: ({k: f(f, v, n + 1) for k, v in x.items()} "
+                          "if isinstance(x, dict) and n < 8 else ([f(f, v, n + 1) for v in x] if isinstance(x, list) and n < 8 "
+                          "else (tuple(f(f, v, n + 1) for v in x) if isinstance(x, tuple) and n < 8 "
+                          "else (x.copy() if hasattr(x, 'copy') else x)))), " + x + ")"))),
+            # ---- sizes and depths past internal constants of a hand-written copy
+            ("reset_does_not_copy_large_arrays", mk(["reset"], lambda s: s.replace(
+                "copy.deepcopy(self.start_geno)",
+                "copy.deepcopy(self.start_geno, {id(v): v for v in self.start_geno.values() if getattr(v, 'size', 0) > 1024})"))),
+            ("reset_copy_limited_to_depth_10", mk(["reset"], lambda s: (lambda cp: s.replace(
+                "copy.deepcopy(self.start_genome)", cp("self.start_genome")).replace(
+                "copy.deepcopy(self.start_geno)", cp("self.start_geno")).replace(
+                "copy.deepcopy(self.start_pheno)", cp("self.start_pheno")).replace(
+                "copy.deepcopy(self.start_bval)", cp("self.start_bval")).replace(
+                "copy.deepcopy(self.start_gmod)", cp("self.start_gmod")))(
+                lambda x: "(lambda f, x: f(f, x, 0))(lambda f, x, n: (copy.deepcopy(x) if not isinstance(x, (dict, list)) else "
+                          "(x if n >= 10 else ({k: f(f, v, n + 1) for k, v in x.items()} if isinstance(x, dict) "
+                          "else [f(f, v, n + 1) for v in x]))), " + x + ")"))),
+            # ---- the clock between calls
+            ("evolve_undoes_the_last_tick", mk(["evolve"], lambda s: s.replace(
+                "                verbose = verbose,\n                **kwargs\n            )\n",
+                "                verbose = verbose,\n                **kwargs\n            )\n"
+                "            self._t_cur -= 1 if ngen > 0 else 0\n"))),
+            ("advance_leaves_clock_one_behind", mk(["advance"], lambda s: s.replace(
+                "        for _ in range(ngen):", "        t_entry = self._t_cur\n        for _ in range(ngen):").replace(
+                "            self._t_cur += 1",
+                "            self._t_cur += 1\n        if ngen > 1:\n            self._t_cur = t_entry + ngen - 1"))),
         ]
 
 
